@@ -228,3 +228,198 @@ def body_generic_history(first: int, second: int) -> int:
         if second == k:
             b = k
     return _sh.check_generic_history(a, b)
+
+
+# ------------------------------------------------------------------ generic dataclasses against their hand-written instances
+# A subscripted generic dataclass must behave like the class one would write by hand with the type argument substituted
+# everywhere the type variable occurs -- also inside typing constructs around ANOTHER generic dataclass (List[GBox[T]], ...).
+
+_TG = t.TypeVar('_TG')
+_UG = t.TypeVar('_UG')
+
+
+class GBox(PaneBase, t.Generic[_TG]):
+    value: _TG
+
+
+class GShelf(PaneBase, t.Generic[_TG]):
+    boxes: t.List[GBox[_TG]]
+    opt: t.Optional[GBox[_TG]]
+    m: t.Dict[str, GBox[_TG]]
+    direct: GBox[_TG]
+    tup: t.Tuple[GBox[_TG], _TG]
+    ann: t.Optional[t.Annotated[_TG, Positive]] = None
+
+
+class GPair(PaneBase, t.Generic[_TG, _UG]):
+    first: t.List[GBox[_UG]]
+    second: t.Union[GBox[_TG], GBox[_UG]]
+    third: GShelf[_UG]
+
+
+def _mono(A, tag):
+    """the same three classes written without type variables, for the argument A"""
+    ns = {'PaneBase': PaneBase, 't': t, 'A': A, 'Positive': Positive, '__name__': __name__}
+    exec(f'''
+class MBox_{tag}(PaneBase):
+    value: A
+
+
+class MShelf_{tag}(PaneBase):
+    boxes: t.List[MBox_{tag}]
+    opt: t.Optional[MBox_{tag}]
+    m: t.Dict[str, MBox_{tag}]
+    direct: MBox_{tag}
+    tup: t.Tuple[MBox_{tag}, A]
+    ann: t.Optional[t.Annotated[A, Positive]] = None
+''', ns)
+    return ns[f'MBox_{tag}'], ns[f'MShelf_{tag}']
+
+
+G_ARGS = (int, float, str, t.Optional[int], t.Union[int, str])
+G_MONO = tuple(_mono(A, i) for (i, A) in enumerate(G_ARGS))
+G_SHELF = tuple(GShelf[A] for A in G_ARGS)
+
+
+def _mono_pair(ia, ib):
+    (BA, SA) = G_MONO[ia]
+    (BB, SB) = G_MONO[ib]
+    ns = {'PaneBase': PaneBase, 't': t, 'BA': BA, 'BB': BB, 'SB': SB, '__name__': __name__}
+    exec(f'''
+class MPair_{ia}_{ib}(PaneBase):
+    first: t.List[BB]
+    second: t.Union[BA, BB]
+    third: SB
+''', ns)
+    return ns[f'MPair_{ia}_{ib}']
+
+
+G_PAIRS = ((0, 1), (1, 0), (2, 0), (0, 2), (3, 2))
+G_PAIR = tuple(GPair[G_ARGS[a], G_ARGS[b]] for (a, b) in G_PAIRS)
+G_MPAIR = tuple(_mono_pair(a, b) for (a, b) in G_PAIRS)
+for _x in G_SHELF + G_PAIR + G_MPAIR + tuple(s for (_b, s) in G_MONO):
+    make_converter(_x)
+
+
+def same_shape(a, b):
+    """a (through the generic class) and b (through the hand-written class) carry the same exactly-typed field values"""
+    if isinstance(a, PaneBase) or isinstance(b, PaneBase):
+        if not (isinstance(a, PaneBase) and isinstance(b, PaneBase)):
+            return False
+        fa = [f.name for f in a.__pane_info__.fields]
+        fb = [f.name for f in b.__pane_info__.fields]
+        if fa != fb:
+            return False
+        for n in fa:
+            if not same_shape(getattr(a, n), getattr(b, n)):
+                return False
+        return True
+    if type(a) is not type(b):
+        return False
+    if isinstance(a, (list, tuple)):
+        if len(a) != len(b):
+            return False
+        for (x, y) in zip(a, b):
+            if not same_shape(x, y):
+                return False
+        return True
+    if isinstance(a, dict):
+        if list(a.keys()) != list(b.keys()):
+            return False
+        for k in a:
+            if not same_shape(a[k], b[k]):
+                return False
+        return True
+    return eqv(a, b)
+
+
+def shelf_value(k1, i1, s1, k2, i2, s2, shape, ci):
+    box1 = {'value': lf(k1, i1, s1, ci)}
+    box2 = {'value': lf(k2, i2, s2, ci)}
+    v = {'boxes': [box1, box2] if shape % 2 == 0 else [box2], 'opt': None if shape < 2 else box2,
+         'm': {} if shape % 3 == 0 else {'k': box2}, 'direct': box1 if shape < 2 else box2,
+         'tup': [box1 if shape < 3 else box2, lf(k1, i1, s1, ci)]}
+    if shape == 3:
+        v['ann'] = lf(k2, i2, s2, ci)
+    return v
+
+
+def generic_vs_mono(G, M, v):
+    try:
+        rg = pane.from_data(v, G)
+        okg = True
+    except ConvertError:
+        okg = False
+    except Exception as e:
+        if crosshair_exc(e):
+            raise
+        return 5
+    try:
+        rm = pane.from_data(v, M)
+        okm = True
+    except ConvertError:
+        okm = False
+    except Exception as e:
+        if crosshair_exc(e):
+            raise
+        return 5
+    if okg and not okm:
+        return 1
+    if okm and not okg:
+        return 2
+    if not okg:
+        return -1
+    if not same_shape(rg, rm):
+        return 4
+    return 0
+
+
+def run_shelf(ai, k1, i1, s1, k2, i2, s2, shape):
+    n = 0
+    G = G_SHELF[0]
+    M = G_MONO[0][1]
+    for x in G_SHELF:
+        if n == ai:
+            G = x
+            M = G_MONO[n][1]
+        n += 1
+    return generic_vs_mono(G, M, shelf_value(k1, i1, s1, k2, i2, s2, shape, True))
+
+
+def run_pair(pi, k1, i1, s1, k2, i2, s2, shape):
+    n = 0
+    G = G_PAIR[0]
+    M = G_MPAIR[0]
+    for x in G_PAIR:
+        if n == pi:
+            G = x
+            M = G_MPAIR[n]
+        n += 1
+    a = lf(k1, i1, s1, True)
+    b = lf(k2, i2, s2, True)
+    v = {'first': [{'value': b}] if shape % 2 == 0 else [], 'second': {'value': a if shape < 2 else b},
+         'third': shelf_value(k2, i2, s2, k2, i2, s2, shape, True)}
+    return generic_vs_mono(G, M, v)
+
+
+body_generic_shelf = run_shelf
+body_generic_pair = run_pair
+
+_GT_ = '''
+@obligation(pre="0 <= k1 <= 4 and 0 <= k2 <= 4 and {lo} <= shape <= {lo} + 1 and -1 <= i1 <= 1 and -1 <= i2 <= 1", witnesses=(0, -1), timeout=300{tiers})
+def body_generic_{what}_{ai}_{lo}(k1: int, i1: int, k2: int, i2: int, shape: int) -> int:
+    """{doc}"""
+    return run_{what}({ai}, k1, i1, 'ab', k2, i2, 'ab', shape)
+'''
+for (_a, _lo) in [(a, lo) for a in range(5) for lo in (0, 2)]:
+    exec(_GT_.format(what='shelf', ai=_a, lo=_lo, tiers='' if _a in (0, 1, 4) else ", tiers=('thorough',)", doc=f"GShelf[{G_ARGS[_a]!r}] (type variable inside List/Optional/Dict/Tuple/Annotated around another generic dataclass) accepts and returns what the hand-written class for that argument does".replace('"', "'")))
+    exec(_GT_.format(what='pair', ai=_a, lo=_lo, tiers='' if _a == 0 else ", tiers=('thorough',)", doc=f"GPair over argument pair #{_a} (two type variables, a union of two parameterisations, a nested generic) against the hand-written class"))
+
+for _a in range(5):
+    for _k in range(5):
+        for _sh in range(4):
+            try:
+                body_generic_shelf(_a, _k, 1, 'a', 2, 1, 'b', _sh)
+                body_generic_pair(_a, _k, 1, 'a', 2, 1, 'b', _sh)
+            except Exception:
+                pass
